@@ -233,3 +233,77 @@ def cfg_script(rng, name):
         ops.append("iattempt d%d %s payload=%s" % (i, b, hx(rng.bytes(4))))
         ops += ["iinit d%d" % i, "ideliver-from d%d 0 c%d" % (i, i), "ideliver-from c%d 0 d%d" % (i, i), "ideliver-from d%d 0 c%d" % (i, i)]
     return Script(name, ops, {"suite": "init"})
+
+
+# ------------------------------------------------------------------------------------------------
+# handshake datagrams with arbitrary TLV content, genuinely signed by a key holder (`isign`): what the decoder does behind the signature check
+# (mandatory parts missing, unknown parts — "skipped so that newer peers stay compatible" —, repeated parts, other orders, odd field lengths)
+
+def tlv(tag, body):
+    return bytes([tag, len(body) >> 8, len(body) & 255]) + body
+
+
+def algos_part(rng, plain=False, lst=((3, 400.0),)):
+    b = b""
+    if plain:
+        b += bytes([0]) + bytes.fromhex("7f800000")
+    for cid, sp in lst:
+        b += bytes([cid]) + f32bits(sp).to_bytes(4, "big")
+    return tlv(4, b)
+
+
+def signed_parts_scripts(rng, thorough):
+    n = 0
+    for trustB, signer in (([0, 1], 0), ([1], 0), ([0, 1], 2)):
+        ops = ["ikeys 4 %s" % rng.bytes(6).hex(),
+               party("A", 0, [0, 1], DEFAULT_ALGOS, rng.bytes(16).hex()),
+               party("B", 1, trustB, DEFAULT_ALGOS, rng.bytes(16).hex()),
+               "iattempt a A payload=%s" % hx(rng.bytes(5))]
+        stage = lambda v: tlv(1, bytes([v]))
+        nid = lambda: tlv(2, rng.bytes(20))
+        ecdh = lambda k=32: tlv(3, rng.bytes(k))
+        algs = lambda: algos_part(rng, rng.chance(1, 3), [(rng.choice([1, 2, 3]), 100.0 + rng.below(900)) for _ in range(rng.range(1, 3))])
+        unk = lambda: tlv(rng.choice([6, 7, 9, 0x40, 0xfe]), rng.bytes(rng.choice([0, 1, 5, 40])))
+        pay = lambda: tlv(5, rng.bytes(rng.choice([0, 8, 24, 40])))
+        variants = []
+        base = [stage(1), nid(), ecdh(), algs()]
+        variants.append(("ping", base))
+        for i in range(len(base) + 1):                                    # an unknown part at every part boundary
+            variants.append(("ping+unknown@%d" % i, base[:i] + [unk()] + base[i:]))
+        variants.append(("ping+2unknown", [unk()] + base[:2] + [unk(), unk()] + base[2:]))
+        for i in range(len(base)):                                        # each mandatory part missing
+            variants.append(("ping-part%d" % i, base[:i] + base[i + 1:]))
+        perm = list(base)
+        rng.shuffle(perm)
+        variants.append(("ping-permuted", perm))
+        variants.append(("ping-stage-twice", [stage(3)] + base))          # the later part wins
+        variants.append(("ping-ecdh-twice", base + [ecdh()]))
+        for v in (0, 2, 3, 4, 5, 255):                                     # other stage values
+            variants.append(("stage=%d" % v, [stage(v), nid(), ecdh(), algs()] + ([pay()] if v in (2, 3) else [])))
+        variants.append(("pong-without-payload", [stage(2), nid(), ecdh(), algs()]))
+        variants.append(("peng-without-payload", [stage(3), nid()]))
+        variants.append(("peng", [stage(3), nid(), pay()]))
+        variants.append(("stage-len-2", [tlv(1, b"\x01\x00"), nid(), ecdh(), algs()]))
+        variants.append(("nodeid-len-19", [stage(1), tlv(2, rng.bytes(19)), ecdh(), algs()]))
+        variants.append(("algos-len-7", [stage(1), nid(), ecdh(), tlv(4, rng.bytes(7))]))
+        variants.append(("algos-unknown-cipher", [stage(1), nid(), ecdh(), tlv(4, bytes([9]) + bytes(4) + bytes([3]) + f32bits(5.0).to_bytes(4, "big"))]))
+        variants.append(("algos-empty", [stage(1), nid(), ecdh(), tlv(4, b"")]))
+        variants.append(("empty", []))
+        variants.append(("payload-in-ping", base + [pay()]))
+        k = 0
+        for name, parts in variants:
+            body = b"".join(parts) + b"\x00"
+            ops.append("isign %d %s %s" % (signer, rng.bytes(4).hex(), hx(body)))
+            # each to a fresh responder object, and to an object in a later stage
+            k += 1
+            ops.append("iattempt r%d B payload=%s" % (k, hx(rng.bytes(3))))
+            ops.append("ideliver-from signer%d 0 r%d" % (signer, k))
+            ops.append("ideliver-from signer%d 0 r%d" % (signer, k))      # the same again (stage has moved if it was accepted)
+            if rng.chance(1, 3):
+                ops.append("ideliver-from signer%d 0 r%d %s" % (signer, k, rng.choice(["flip=%d" % rng.below(400), "trunc=%d" % rng.below(60), "app=00"])))
+        # no end marker at all / end marker in the middle
+        ops.append("isign %d %s %s" % (signer, rng.bytes(4).hex(), hx(b"".join(base))))
+        ops.append("iattempt rz B payload=00")
+        ops.append("ideliver-from signer%d 0 rz" % signer)
+        n += 1
+        yield Script("signed-parts-%d" % n, ops, {"suite": "init"})
